@@ -92,12 +92,12 @@ claim("C15", "Optimizer",
       "TLA+ spec Optimizer.tla (life-cycle with faults: Reject / Construct / EnterTee / Eval / EvalFail / EvalNaN / SciPyReturns / Swallow / Propagate / ExitTee / Fallback / FinalEval / ResultCalc / BuildResult; invariants StdoutRestored, Contained, Transparent, RejectedBeforeEval, HistoryShape, ResultFromEvaluated, SchemeUntouched; liveness under fairness) model-checked; every fault plan TLC enumerates is run on the real optimize() with a fault megacomplex and the observed outcome must be one of the emitted terminal states; event traces validated by OptimizerTrace.tla",
       "A fault (exception or non-finite matrix) at every evaluation k = 1..N+1 of the fault-free run incl. the evaluations made while creating the result, three methods, verbose, raise_exception, every kind of invalid scheme, sys.stdout swapped between construction and optimisation.",
       "Fault is one-shot (the property quantifies over a fault at one evaluation). One recorded finding (NaN inside Levenberg-Marquardt). Trusted: TLC, hooks (add-only).",
-      "DESIGN.md §5 C15", category="fault_enumeration")
+      "DESIGN.md §5 C15")
 claim("C18", "SaveProtocol",
       "TLA+ specs SaveProtocol.tla (Protect -> Lookup -> PluginWrite -> UpdateSourcePath over an abstract file system; Refusal / OverwriteOnlyIfAsked / PreexistingUntouched / NoWriteBeforeCheck) and ProjectRuns.tla (Optimize / Remove / Latest / Get / ItemOp; FreshIncreasing / EarlierRunsUnchanged / LatestIsOwnMax / GetIsExact) model-checked exhaustively; every emitted save call and every edge of the run graph replayed on the real save_* functions and a real Project in temp folders; traces of drivers and of the repository's own tests validated by SaveProtocolTrace / ProjectRunsTrace",
       "Every save function x registered format (+ unknown, + failing plugin) x target state x allow_overwrite x format given/inferred with byte and mtime comparison of all pre-existing files; all histories of <= 4-6 operations over result names sharing prefixes / containing _run_ / containing dots, incl. real Project.optimize runs.",
       "D4, D10. Trusted: TLC, file-system digests, hooks (add-only).",
-      "DESIGN.md §5 C18", category="fault_enumeration")
+      "DESIGN.md §5 C18")
 claim("C20", "Validation",
       "TLA+ spec Validation.tla: hand-written reference schema of every builtin item type; mutants (misspell / drop / delete item / delete parameter / rename / duplicate unique / combine exclusive / shorten label list) enumerated by fan-out from 10 base models; invariants SoundAndComplete (Must = {} <=> AllResolve), ValidFills, GeneratedParametersSuffice, InjectedFaultFound checked by TLC; every mutant built as a real Model and the projected SET of issues compared (Must <= got <= May) on get_issues / validate / valid / Scheme.validate, fill_item and one objective evaluation for valid pairs",
       "Single and double mutations of 10 base models covering all builtin item types, dict / list / scalar / aliased / nested references; exceptions other than the documented ModelError are violations.",
